@@ -71,7 +71,7 @@ _MORE = {
    note="A stream both references reject counts as a generator fault, one on which they disagree is dropped and counted (0 and 0 on the pinned tree); pictures are at most 33 px wide; deviations beyond the bound are not covered.", ref="3/C03"),
 
  "C04": dict(cat="exploration", tech="exhaustive enumeration of syntax trees of a VP8 key-frame generator (own boolean entropy encoder) and of ALPH payload shapes, decoded by the real decoder and by independent references",
-   text="A syntax-directed VP8 key-frame writer (RFC 6386 boolean encoder, frame header, segment / filter / quantiser syntax, mode trees with the format's probability tables, token trees with contexts, 1-8 partitions) is driven by the explorer over 8 picture sizes with at most 2 deviations (3 on a 3x2-macroblock picture; thorough 3/4) from menus covering quantiser indices and all five deltas, four segment configurations, filter level/type/sharpness/deltas, every 16x16, 4x4 and chroma mode, eleven coefficient programs x magnitudes up to 2114, both spellings of trailing zeros (EOB / explicit DCT_0 tokens), skip-flag usage, probability updates. Y/Cb/Cr from lossy.DecodeFrame and webp.Decode must equal the vendored decoder's, libwebp arbitrating. ALPH: 8.7 k payloads (raw with each filter / pre-processing / reserved bits / trailing bytes; VP8L payloads from the lossless generator) checked against a reference ALPH decoder and a reference fancy upsampler (validated against libwebp on every case).",
+   text="A syntax-directed VP8 key-frame writer (RFC 6386 boolean encoder, frame header, segment / filter / quantiser syntax, mode trees with the format's probability tables, token trees with contexts, 1-8 partitions) is driven by the explorer over 10 picture sizes (incl. 1x1, 31x1, 1x18, 2x3) with at most 2 deviations (3 on a 3x2-macroblock picture; thorough 3/4) from menus covering quantiser indices and all five deltas, four segment configurations, filter level/type/sharpness/deltas, every 16x16, 4x4 and chroma mode, eleven coefficient programs x magnitudes up to 2114, both spellings of trailing zeros (EOB / explicit DCT_0 tokens), skip-flag usage, probability updates. Y/Cb/Cr from lossy.DecodeFrame and webp.Decode must equal the vendored decoder's, libwebp arbitrating. ALPH: 8.7 k payloads (raw with each filter / pre-processing / reserved bits / trailing bytes; VP8L payloads from the lossless generator) checked against a reference ALPH decoder and a reference fancy upsampler (validated against libwebp on every case).",
    note="Frames the references reject or disagree on are dropped and counted; coefficient levels are limited so that level x quantiser fits 16 bits; pictures have at most 3x3 macroblocks.", ref="3/C04"),
 }
 CHECKS.update(_MORE)
